@@ -243,6 +243,7 @@ fn run_part(run: &mut Run) {
             run.sweep_vec("text-rgb565", "fonts x 11 strings x 16 colour/decoration combinations x 4 baselines x 3 alignments x line heights",
                 || text_catalogue(&fonts, &CATALOGUE_STRINGS, &[(1, 100), (0, 7)], (-3, 5)), check_text::<Rgb565>);
             run.sweep_vec("bounded-target", "images (7 widths, 4 sizes, sub-images), text and seven primitive kinds x S(2) hanging over every edge and corner of two small target boxes (one not at the origin): both target flavours compared inside the target's box", || bounded_cases(tier), check_bounded);
+            run.sweep_vec("text-custom-fonts", "three synthetic fonts with character spacing 1, 2, 3 x 7 strings x 16 colour/decoration sets x 4 baselines x 3 alignments", || text_catalogue_named(&CUSTOM_FONTS, &CUSTOM_STRINGS, &[(1, 100)], (-3, 5)), check_text::<Rgb565>);
             run.sweep_vec("text-binary", "one font x strings x decorations in BinaryColor",
                 || text_catalogue(&[font_index("ascii::FONT_6X9")], &CATALOGUE_STRINGS, &[(1, 100)], (2, 2)), check_text::<BinaryColor>);
         }
